@@ -139,6 +139,9 @@ func obsShort(o Obs) string {
 	return o.Kind
 }
 
+// c15Stuck counts programs in which a goroutine never reached its next scheduling point
+var c15Stuck int
+
 var c15Cands = candidatePaths([]string{"d", "e", "f", "g", "x", "y"}, 2)
 
 // runSchedule runs the program under the given schedule prefix (then lowest-id-first); returns the
@@ -221,6 +224,9 @@ func exploreAll(prog cProg, budget int) (outcomes map[string][]int, runs int, pr
 		runs++
 		if prob != "" && problem == "" {
 			problem = prob
+		}
+		if prob != "" {
+			return false // a goroutine is stuck: every further schedule of this program would wait for the watchdog again
 		}
 		if out != "" {
 			if _, ok := outcomes[out]; !ok {
@@ -523,6 +529,12 @@ func runC15(r *Rng, n int, replay string) {
 		c.Cells = []string{fmt.Sprintf("%s/g%d", c.Kind, ng)}
 		if problem != "" {
 			c.fail(fmt.Sprintf("program %s: %s", prog, problem), c.Kind+":liveness")
+			c15Stuck++
+			emit(c)
+			if c15Stuck >= 3 {
+				return // the file system deadlocks: three failing programs are enough, every further one costs seconds
+			}
+			continue
 		}
 		var keys []string
 		for k := range outcomes {
@@ -540,6 +552,9 @@ func runC15(r *Rng, n int, replay string) {
 	// single-mutation atomicity: one goroutine performs one mutation, the other looks twice
 	if replay != "noobs" {
 		for k, prog := range c15ObserverPrograms(r, n/3+6) {
+			if c15Stuck >= 3 {
+				break
+			}
 			c := &Case{ID: 5000 + k, Kind: "shared"}
 			outcomes, runs, problem, complete := exploreAll(prog, 600)
 			seq := sequentialOutcomes(prog)
@@ -547,6 +562,7 @@ func runC15(r *Rng, n int, replay string) {
 			c.Cells = []string{"observer/g2"}
 			if problem != "" {
 				c.fail(fmt.Sprintf("program %s: %s", prog, problem), "shared:liveness")
+				c15Stuck++
 			}
 			for k := range outcomes {
 				if !seq[k] {
@@ -558,7 +574,7 @@ func runC15(r *Rng, n int, replay string) {
 		}
 	}
 	// programs over the model's alphabet (Mkdir, Remove, Stat, Chmod, Rename of a file), explored completely: the set of outcomes vs the model's
-	for k := 0; k < n/2+4; k++ {
+	for k := 0; k < n/2+4 && c15Stuck < 3; k++ {
 		ng := 2
 		if r.Intn(5) == 0 {
 			ng = 3
@@ -599,6 +615,7 @@ func runC15(r *Rng, n int, replay string) {
 		c.Cells = []string{fmt.Sprintf("model/g%d", ng)}
 		if problem != "" {
 			c.fail(fmt.Sprintf("program %s: %s", prog, problem), "model:liveness")
+			c15Stuck++
 		}
 		if complete && problem == "" {
 			var progC []string
